@@ -28,9 +28,10 @@ import (
 	"verifharness/hx"
 )
 
-// c02Variant: "asis" = the unchanged tree; "fixed" = after fixes/ofkind-untyped.diff and
-// fixes/isglobal-nil-object.diff.
-const c02Variant = "fixed"
+// c02Variant: "asis" = the pinned tree; "fixed" = after fixes/ofkind-untyped.diff, fixes/isglobal-nil-object.diff and
+// fixes/alias-transparent-type-predicates.diff; "repaired" = in addition after fixes/c02-list-captures.diff,
+// c02-typeof-exprstmt.diff, c02-constslice-literal-type.diff, c02-pure-whitelist.diff, c02-variadic-funclit.diff.
+const c02Variant = "repaired"
 
 func init() { register("C02", runC02) }
 
@@ -46,6 +47,7 @@ func probe(a interface{}) int      { return 0 }
 func probeN(a ...interface{}) int  { return 0 }
 func fn(x int) int                 { return x }
 func fv(xs ...int) int             { return len(xs) }
+func gen[T any](x T) T             { return x }
 
 type S1 struct {
 	a int8
@@ -138,6 +140,7 @@ var c02Exprs = []string{
 	"[]byte{'f', 'o'}", "[][]int{{1}, {2}}", "&S1{a: 1}", "[]interface{}{fn(1)}",
 	"gsl[1:2]", "gs[:1]", "garr[:]", "gif.(int)", "gif.(io.Reader)", "func() {}", "func(x int) int { return x }",
 	"struct{}{}", "E{}", "new(int)", "make([]int, 1)", "append(gsl, 1)", "gi == 1", "gs + \"x\"", "gs + cs", "gerr == nil", "gfn(1)",
+	"gen[[]int]", "gen[int]", "gen[map[string]int](gm)", "gsl[gi:fn(1)]", "gsl[:gi:gi+1]", "gif.(fmt.Stringer).String", "S1{a: int8(fn(1))}", "map[string]int{gs: gi}", "[2]int{c5, 1}", "[...]string{cs}", "AS1{1, 2}",
 	"%t", "%w", "%ws", "%w + 1", "%tp", "%xs", "%xs[0]",
 }
 
@@ -148,6 +151,7 @@ type c02Site struct {
 	match   ast.Node   // the node the pattern matches ($$)
 	parent  ast.Node   // its parent
 	capture []ast.Node // the captured node (one), or the elements of $*xs
+	lits    []*ast.FuncLit // the function literals on the node path of the match (the match itself, its ancestors)
 	tgt     *hx.Target
 }
 
@@ -183,6 +187,9 @@ func c02BuildTarget(seed int64, thorough bool) string {
 		frame(fmt.Sprintf(c, "probe("+e+")"), g)
 	}
 	// variadic parameters: of the enclosing declaration, of a function literal, captured by a closure
+	for k%3 != 0 {
+		frame("probe(ls)", false)
+	}
 	frame("probe(vs)", false)
 	for k%3 != 0 {
 		frame("probe(l8)", false)
@@ -194,6 +201,14 @@ func c02BuildTarget(seed int64, thorough bool) string {
 	}
 	frame("f := func() { probe(vs) }\n\t_ = f", false)
 	frame("probe(xs)", true)
+	frame("f := func(a int, ys ...string) { g := func(zs ...int) { probe(ys) }; _ = g }\n\t_ = f", false)
+	frame("f := func(ys ...string) { g := func(ys []int) { probe(ys) }; _ = g }\n\t_ = f", false)
+	for k%3 != 0 {
+		frame("probe(l8)", false)
+	}
+	frame("f := func(ys ...int) { probeN(ys, vs) }\n\t_ = f", false)
+	frame("f := func(ys ...int) { probeN(ys, ls) }\n\t_ = f", false)
+	frame("f := func(ys ...int) { probeN((ys), ys) }\n\t_ = f", false)
 	// expression lists
 	lists := [][]string{{"1"}, {"1", "2"}, {"1", "gi"}, {"gi", "gs"}, {"gi", "g8", "g64"}, {"ga8"}, {"ga8", "g8"}, {"gsl", "gp"}, {"fn(1)", "gi"}, {"gi", "fn(1)"},
 		{"[]int{1}", "[]byte(\"a\")"}, {"fn", "fmt.Sprint"}, {"gi", "l8"}, {"nil"}, {"gerr", "gw"}, {"gst", "ge"}, {"c5", "cs"}, {"%w", "gi"}, {"%t"}, {}}
@@ -277,6 +292,15 @@ func c02Parse(path, src string, alias bool) (*c02World, error) {
 			if site != nil {
 				return true
 			}
+			defer func() {
+				if site != nil {
+					for _, a := range stack {
+						if fl, ok := a.(*ast.FuncLit); ok {
+							site.lits = append(site.lits, fl)
+						}
+					}
+				}
+			}()
 			switch n := n.(type) {
 			case *ast.IfStmt:
 				if id, ok := n.Cond.(*ast.Ident); ok && id.Name == "mark" && len(n.Body.List) == 1 && n.Else == nil && n.Init == nil {
@@ -355,7 +379,8 @@ func hasAlias(t types.Type, depth int) bool {
 	return false
 }
 
-func (w *c02World) objSexp(id *ast.Ident, decl *ast.FuncDecl) string {
+func (w *c02World) objSexp(id *ast.Ident, site *c02Site) string {
+	decl := site.decl
 	obj := w.t.Info.ObjectOf(id)
 	if obj == nil {
 		return "-"
@@ -389,7 +414,39 @@ func (w *c02World) objSexp(id *ast.Ident, decl *ast.FuncDecl) string {
 			lastOfDecl = true
 		}
 	}
-	return fmt.Sprintf("%s:%s:%s:%s", kind, b01(global), b01(lastOfDecl), b01(w.variadicParams()[obj]))
+	return fmt.Sprintf("%s:%s:%s:%s:%s", kind, b01(global), b01(lastOfDecl), b01(w.variadicParams()[obj]), b01(w.variadicOfLit(obj, site)))
+}
+
+// obj is the `...T` parameter of a function literal on the node path of the site's match
+func (w *c02World) variadicOfLit(obj types.Object, site *c02Site) bool {
+	for _, fl := range site.lits {
+		ps := fl.Type.Params
+		if ps == nil || len(ps.List) == 0 {
+			continue
+		}
+		last := ps.List[len(ps.List)-1]
+		if _, ok := last.Type.(*ast.Ellipsis); ok && len(last.Names) > 0 && w.t.Info.Defs[last.Names[len(last.Names)-1]] == obj {
+			return true
+		}
+	}
+	return false
+}
+
+// the identifier the object predicates are about (own copy of the documented rule: the expression up to
+// parentheses, or the selected name of a selector)
+func c02IdentOf(e ast.Expr) *ast.Ident {
+	for {
+		switch x := e.(type) {
+		case *ast.ParenExpr:
+			e = x.X
+		case *ast.Ident:
+			return x
+		case *ast.SelectorExpr:
+			return x.Sel
+		default:
+			return nil
+		}
+	}
 }
 
 var c02VariadicCache = map[*c02World]map[types.Object]bool{}
@@ -429,8 +486,8 @@ func (w *c02World) isConst(e ast.Expr) bool {
 	return ok && tv.Value != nil
 }
 
-func (w *c02World) exSexp(e ast.Expr, decl *ast.FuncDecl) string {
-	rec := func(x ast.Expr) string { return w.exSexp(x, decl) }
+func (w *c02World) exSexp(e ast.Expr, site *c02Site) string {
+	rec := func(x ast.Expr) string { return w.exSexp(x, site) }
 	list := func(xs []ast.Expr) string {
 		var parts []string
 		for _, x := range xs {
@@ -451,13 +508,13 @@ func (w *c02World) exSexp(e ast.Expr, decl *ast.FuncDecl) string {
 	case *ast.BasicLit:
 		return "(lit " + b01(e.Kind == token.STRING) + ")"
 	case *ast.Ident:
-		return "(id " + w.objSexp(e, decl) + ")"
+		return "(id " + w.objSexp(e, site) + ")"
 	case *ast.FuncLit:
 		return "(flit)"
 	case *ast.IndexExpr:
 		return "(idx " + rec(e.X) + " " + rec(e.Index) + ")"
 	case *ast.SelectorExpr:
-		return "(sel " + rec(e.X) + " " + w.objSexp(e.Sel, decl) + ")"
+		return "(sel " + rec(e.X) + " " + w.objSexp(e.Sel, site) + ")"
 	case *ast.ParenExpr:
 		return "(par " + rec(e.X) + ")"
 	case *ast.CompositeLit:
@@ -544,14 +601,14 @@ func (w *c02World) siteSexp(s *c02Site, oracle string) string {
 		parts := []string{"list"}
 		for _, n := range s.capture {
 			e := n.(ast.Expr)
-			parts = append(parts, "("+w.exSexp(e, s.decl)+" "+w.tySexp(w.typeOf(e), 0)+")")
+			parts = append(parts, "("+w.exSexp(e, s)+" "+w.tySexp(w.typeOf(e), 0)+")")
 		}
 		cap = "(" + strings.Join(parts, " ") + ")"
 	} else {
 		e := subExprOf(s.capture[0])
 		ex := "-"
 		if e != nil {
-			ex = w.exSexp(e, s.decl)
+			ex = w.exSexp(e, s)
 		}
 		cap = "(one " + ex + " " + w.tySexp(w.typeOf(e), 0) + ")"
 	}
@@ -837,6 +894,7 @@ func runC02(c *Ctx) error {
 			return err
 		}
 		mode := "alias=" + b01(alias)
+		c02CheckScope(c, w)
 		for pat := 0; pat < 3; pat++ {
 			var lines, impl, specOps []string
 			var inputs []interface{}
@@ -941,6 +999,43 @@ func runC02(c *Ctx) error {
 	return nil
 }
 
+// the contract `C02.ScopeOK` of the object facts (hypothesis of isVariadic_eq_spec / pred_eq_spec), asserted on every
+// captured identifier of every site: it denotes a `...T` parameter iff it is the last parameter of the enclosing
+// variadic declaration or the `...T` parameter of a function literal on the node path of the match
+func c02CheckScope(c *Ctx, w *c02World) {
+	for pat := 0; pat < 3; pat++ {
+		for _, s := range w.sites[pat] {
+			declVariadic := false
+			var declLast types.Object
+			if fobj, ok := w.t.Info.ObjectOf(s.decl.Name).(*types.Func); ok {
+				sig := fobj.Type().(*types.Signature)
+				declVariadic = sig.Variadic()
+				if sig.Params().Len() > 0 {
+					declLast = sig.Params().At(sig.Params().Len() - 1)
+				}
+			}
+			for _, n := range s.capture {
+				e := subExprOf(n)
+				if e == nil {
+					continue
+				}
+				id := c02IdentOf(e)
+				if id == nil {
+					continue
+				}
+				obj := w.t.Info.ObjectOf(id)
+				if obj == nil {
+					continue
+				}
+				c.Res.Dist("scope-contract-checked")
+				if w.variadicParams()[obj] != ((declVariadic && obj == declLast) || w.variadicOfLit(obj, s)) {
+					c.Res.Errorf("facts contract ScopeOK does not hold at site %s (identifier %s)", s.name, id.Name)
+				}
+			}
+		}
+	}
+}
+
 // all sites where the implementation's verdict differs from the statement, grouped into input classes
 func c02Violation(c *Ctx, w *c02World, pat int, op c02Op, verdicts, first, mode string) {
 	// ask per site to classify every failing site (the batch answer names only the first)
@@ -986,6 +1081,13 @@ func c02Signature(w *c02World, s *c02Site, op c02Op, want, got string) string {
 	listAware := map[string]bool{"pure": true, "constslice": true, "const": true, "addressable": true, "comparable": true, "objectis": true,
 		"typeis": true, "typeunderlyingis": true, "convertibleto": true, "assignableto": true, "implements": true}
 	if s.pat == 1 && !listAware[op.pred] {
+		if op.pred == "isvariadic" && want == "t" {
+			for _, n := range s.capture {
+				if id := c02IdentOf(n.(ast.Expr)); id != nil && w.t.Info.ObjectOf(id) != nil && w.variadicOfLit(w.t.Info.ObjectOf(id), s) {
+					return name + ":func-literal-param"
+				}
+			}
+		}
 		return name + ":list-capture:not-elementwise"
 	}
 	if s.pat == 2 {
